@@ -2,7 +2,7 @@
 # usage: tools/confirm_seed.sh <Cxx> <mutName> [base_patch]
 # Confirms a seeded change in a scratch worktree of /repo HEAD: patch applies, demo passes without / fails with, test failure set unchanged.
 ID="$1"; MUT="$2"; BASE="$3"
-SRC=/tmp/wt/out/$ID/$MUT
+SRC=${SEED_SRC:-/tmp/wt/out}/$ID/$MUT
 WT=/tmp/seedwt_${ID}_${MUT}
 OUT=/verif/seeded/${ID}-${MUT}
 rm -rf "$WT"; git -C /repo worktree add --detach "$WT" HEAD -q || exit 9
